@@ -101,7 +101,7 @@ func c10L1(r *Run) {
 		u, isU := lock.Call.Args[0].(*ssa.UnOp)
 		if !isU {
 			okLock = false
-		} else if _, fld, ok := fieldAddrOf(u.X); !ok || fld.Name() != "lock" {
+		} else if _, fld, ok := fieldAddrOf(u.X); !ok || fname(fld) != "lock" {
 			okLock = false
 		}
 		allInstrs(dr, func(in ssa.Instruction) {
@@ -332,7 +332,7 @@ func c10L3(r *Run) {
 		if st, ok := o.Type().Underlying().(*types.Struct); ok {
 			for i := 0; i < st.NumFields(); i++ {
 				if _, isCh := st.Field(i).Type().Underlying().(*types.Chan); isCh {
-					bad = "channel field Client." + st.Field(i).Name()
+					bad = "channel field Client." + fname(st.Field(i))
 				}
 			}
 		}
